@@ -13,6 +13,14 @@ def rule(tu, rec):
     ownership(ck, owners, "OWN")
 
 
+def rule_elem(tu, rec):
+    """the same typestate on the ContiguousElement witnesses (the element is the owning object)"""
+    ck = Checker(tu, rec, "C07")
+    owners = discover_owners(tu)
+    ctor_alloc_relation(ck, owners, "OWN-E")
+    ownership(ck, owners, "OWN-E")
+
+
 def run(tier, seed, only=None):
     C = config
     cfgs = vector_configs(tier, seed, alloc_lists=("OneFixed", "OneVarying", "ObjFixed", "ObjVarying", "Plain", "OneFixedOneVarying", "PlainAligned"))
@@ -26,5 +34,6 @@ def run(tier, seed, only=None):
         "allocation; no block is released twice, none is lost, none is owned by two fields; after the operation the size "
         "bookkeeping and get_allocator() of every operand match the blocks it owns (inductive invariant I5); no "
         "operator new/malloc.  By induction over operations: every byte comes from the allocator and goes back exactly "
-        "once, for every history.",
-        cfgs=cfgs, min_ob=3000)
+        "once, for every history.  The same typestate (rules OWN-E-*) is applied to every ContiguousElement special member "
+        "(construction from references, copy/move/allocator-extended construction, assignment, swap, destruction).",
+        cfgs=cfgs, min_ob=3000, elements="rule_elem")
